@@ -1,12 +1,12 @@
 \* generated by mkcfg_searchers.py; families and layouts: MCSearchers.tla
 SPECIFICATION Spec
 CONSTANTS
-  SegSizes <- Segs22
+  SegSizes <- Segs21
   Deleted = {1}
   OneHitEnc = TRUE
   ScoreNone = FALSE
   HeapTakeover = 10
-  MaxCalls = 2
+  MaxCalls = 3
   NTerms = 2
   Family = "core2"
   DropK1 = FALSE
